@@ -326,8 +326,20 @@ fn inert_line(r: &mut Rng, open: &Option<(u8, u8, Option<u8>)>, ctr: u64) -> Lin
     }
 }
 
+/// well-formed line, presentation re-drawn when `dressed`
+fn hdr_line(r: &mut Rng, dressed: bool, n: u8, k: u8, id: Option<u8>, payload: &[u8]) -> Vec<u8> {
+    if dressed {
+        let mut b = Build::simple(n, k, id, b"A", payload, 0);
+        dress(r, &mut b, k < n);
+        b.line()
+    } else {
+        nmea_ref::mk(n, k, id, payload, 0)
+    }
+}
+
 fn random_histories(ctx: &Ctx, rep: &mut Report, r: &mut Rng) {
-    for _ in 0..ctx.budget(1_500, 40_000) {
+    for hi in 0..ctx.budget(1_500, 40_000) {
+        let dressed = hi % 2 == 1;
         let len = r.usize(4, 40);
         let mut h: Vec<Line> = Vec::new();
         let mut open: Option<(u8, u8, Option<u8>)> = None;
@@ -351,7 +363,7 @@ fn random_histories(ctx: &Ctx, rep: &mut Report, r: &mut Rng) {
             match open {
                 Some((n, k, id)) if k < n && r.chance(4, 5) => {
                     let dec = r.chance(1, 6);
-                    h.push((nmea_ref::mk(n, k + 1, id, &uniq_payload(ctr), 0), dec));
+                    h.push((hdr_line(r, dressed, n, k + 1, id, &uniq_payload(ctr)), dec));
                     open = if k + 1 == n { None } else { Some((n, k + 1, id)) };
                 }
                 _ => {
@@ -360,7 +372,7 @@ fn random_histories(ctx: &Ctx, rep: &mut Report, r: &mut Rng) {
                     if !ids.contains(&id) {
                         ids.push(id);
                     }
-                    h.push((nmea_ref::mk(n, 1, id, &uniq_payload(ctr), 0), false));
+                    h.push((hdr_line(r, dressed, n, 1, id, &uniq_payload(ctr)), false));
                     open = Some((n, 1, id));
                 }
             }
